@@ -3,6 +3,7 @@ pub mod fuzz;
 pub mod map;
 pub mod misc;
 pub mod ram;
+pub mod sv;
 pub mod vlq;
 
 pub fn dispatch(t: &[&str]) -> String {
@@ -13,6 +14,7 @@ pub fn dispatch(t: &[&str]) -> String {
         "bytes.all" => fuzz::run(t),
         "conc.run" => conc::run(t),
         "ram.parse" | "ram.wf" => ram::run(t),
+        "sv.seq" | "sv.corr" => sv::run(t),
         _ => "bad-op".into(),
     }
 }
